@@ -19,6 +19,27 @@ ASSUMPTIONS = [
 
 def gen_case(seed, extra=None):
     rng = _random.Random(seed)
+    first = _gen_one(rng, seed)
+    if rng.random() < 0.2:
+        # several programs normalised and typed one after the other in the same interpreter
+        seq = [first]
+        for i in range(rng.choice([1, 1, 2])):
+            if rng.random() < 0.5:
+                # the same loop with other initial values
+                c = copy.deepcopy(first)
+                declared = {t[0] for t in c["prog"].get("types", [])}    # declared types are taken as given: keep them true
+                for st in c["prog"]["init"]:
+                    if st[0] == "assign" and st[2][0] == "num" and st[1] not in declared:
+                        st[2] = gen.num(rng.choice([0, 1, 2, 3, 5, -1, -3]))
+                c["seed"] = seed + 1 + i
+                seq.append(c)
+            else:
+                seq.append(_gen_one(rng, seed + 1 + i))
+        return {"kind": "sequence", "cases": seq, "seed": seed}
+    return first
+
+
+def _gen_one(rng, seed):
     prog = gen.gen_c05_program(rng)
     symvals = {}
     if rng.random() < 0.25 and gen.symbolise(prog, rng, "p"):
@@ -38,11 +59,56 @@ def gen_case(seed, extra=None):
     }
 
 
-def run_case(case, extra=None):
+def _run_in_child(case):
     from . import c05
 
-    r = c05.run_case(case)
+    if case["kind"] == "sequence":
+        subs = [c05.run_case(c) for c in case["cases"]]
+        bad = [i for i, x in enumerate(subs) if x.get("outcome") == "violation"]
+        # a violation of known shape in an earlier program must not hide another one in a later program
+        pick = None
+        for i in bad:
+            if {_sig(p) for p in subs[i].get("problems", [])} != {(True, True, True)}:
+                pick = i
+                break
+        if pick is None and bad:
+            pick = bad[0]
+        r = dict(subs[pick] if pick is not None else subs[-1])
+        r["sub_outcomes"] = [x.get("outcome") for x in subs]
+        r["violating_index"] = pick
+        r["sequence_len"] = len(subs)
+        for k in ("observed_triples", "runs", "iterations_total", "guard_false_iterations", "path_sigs", "eval_errors"):
+            r[k] = sum(x.get(k, 0) for x in subs)
+        r["digest"] = c05._digest([x.get("digest") for x in subs])
+        r["scripts_by_case"] = [x.get("scripts") for x in subs]
+        if pick is None:
+            oks = [x for x in subs if x.get("outcome") == "ok"]
+            r["outcome"] = "ok" if oks else subs[-1].get("outcome")
+            if oks:
+                r["typed"] = oks[0].get("typed")
+                r["text"] = oks[0].get("text")
+    else:
+        r = c05.run_case(case)
     r["kind"] = case["kind"]
+    return r
+
+
+_preloaded = False
+
+
+def run_case(case, extra=None):
+    """every case runs in a child forked from the pristine worker: no state of Polar survives from one case to the next"""
+    global _preloaded
+    from . import world
+    if not _preloaded:
+        import inputparser, program, type_inference, program.distribution  # noqa
+        from . import c05, rngseam  # noqa
+        _preloaded = True
+    r = world.fork_call(_run_in_child, case, timeout=300)
+    if r.get("status") in ("child_timeout", "child_died"):
+        return {"outcome": "timeout" if r["status"] == "child_timeout" else "harness_error", "kind": case["kind"], "trace": r["status"]}
+    if r.get("status") == "harness_error":
+        return {"outcome": "harness_error", "kind": case["kind"], "trace": r.get("trace")}
     return r
 
 
@@ -71,6 +137,14 @@ def describe_violation(res):
 
 
 def _variants(case):
+    if case["kind"] == "sequence":
+        cs = case["cases"]
+        for i in range(len(cs)):
+            if len(cs) > 1:
+                c = copy.deepcopy(case)
+                del c["cases"][i]
+                yield c["cases"][0] if len(c["cases"]) == 1 else c
+        return
     if case["iterations"] > 1:
         for it in (1, 2, case["iterations"] // 2, case["iterations"] - 1):
             if 1 <= it < case["iterations"]:
@@ -124,15 +198,23 @@ def shrink(case, extra=None):
     if cls is None:
         return {"outcome": "not_reproduced", "case": case, "result": base}
     cur = copy.deepcopy(case)
-    cur["scripts"] = base["scripts"]
-    # keep only the run that violates
-    bad_run = base["problems"][0].get("run", 0)
-    cand = copy.deepcopy(cur)
-    cand["scripts"] = [base["scripts"][bad_run]]
-    r = run_case(cand)
     curres = base
-    if vclass(r) == cls:
-        cur, curres = cand, r
+    if cur["kind"] == "sequence":
+        vi = base.get("violating_index")
+        if vi is not None:
+            cur["cases"] = cur["cases"][:vi + 1]
+            for c, sc in zip(cur["cases"], base.get("scripts_by_case") or []):
+                if sc:
+                    c["scripts"] = sc
+    else:
+        cur["scripts"] = base["scripts"]
+        # keep only the run that violates
+        bad_run = base["problems"][0].get("run", 0)
+        cand = copy.deepcopy(cur)
+        cand["scripts"] = [base["scripts"][bad_run]]
+        r = run_case(cand)
+        if vclass(r) == cls:
+            cur, curres = cand, r
     steps = 0
     improved = True
     while improved and steps < 300:
@@ -144,7 +226,8 @@ def shrink(case, extra=None):
             except Exception:  # noqa
                 continue
             if vclass(r) == cls:
-                cand["scripts"] = r["scripts"]
+                if cand["kind"] != "sequence":
+                    cand["scripts"] = r["scripts"]
                 cur, curres = cand, r
                 improved = True
                 break
@@ -176,6 +259,7 @@ def summarize(results, tier):
             gf += r.get("guard_false_iterations", 0)
             paths += r.get("path_sigs", 0)
             fp[str(r.get("fp_iterations"))] += 1
+            probes["multi_program_sequences"] += 1 if r.get("kind") == "sequence" else 0
             probes["programs_with_symbolic_probability"] += 1 if r.get("symbolic") else 0
             probes["programs_with_transform_categoricals"] += 1 if r.get("transform_categoricals") else 0
             tk = r.get("typed_kinds", {})
